@@ -327,4 +327,45 @@ theorem diff1_correct (n : Node (MvPolynomial ℕ S) Unit) (v k : ℕ) (hp : n.P
 end Node
 end Poly
 
+/-! ### non-vacuity: a concrete polynomial circuit -/
+
+section Example
+open MvPolynomial
+
+/-- `X₁² ⊙ 3·X₈`: a Hadamard layer over two input layers (variables 1 and 8), one unit each -/
+noncomputable def exampleNode : Node (MvPolynomial ℕ ℚ) Unit :=
+  .had 2 1 fun h =>
+    if h.val = 0 then .leaf 1 1 (fun _ _ => X 1 ^ 2) else .leaf 8 1 (fun _ _ => 3 * X 8)
+
+theorem exampleNode_polyCircuit : exampleNode.PolyCircuit := by
+  intro h
+  by_cases h0 : h.val = 0
+  · simp only [h0, if_true, Node.PolyCircuit]
+    intro _ _
+    exact (vars_pow _ _).trans (by rw [vars_X])
+  · simp only [h0, if_false, Node.PolyCircuit]
+    intro _ _
+    refine (vars_mul _ _).trans ?_
+    rw [← map_ofNat (C : ℚ →+* MvPolynomial ℕ ℚ) 3, vars_C, Finset.empty_union]
+    rw [vars_X]
+
+theorem exampleNode_smooth : exampleNode.Smooth := by
+  intro h
+  by_cases h0 : h.val = 0 <;> simp only [h0, if_true, if_false, Node.Smooth]
+
+theorem exampleNode_decomp : exampleNode.Decomp := by
+  refine ⟨fun h => ?_, fun h h' v hne => ?_⟩
+  · by_cases h0 : h.val = 0 <;> simp only [h0, if_true, if_false, Node.Decomp]
+  · by_cases h0 : h.val = 0 <;> by_cases h0' : h'.val = 0 <;>
+      simp only [h0, h0', if_true, if_false, Node.Mem]
+    · exact absurd (Fin.ext (h0.trans h0'.symm)) hne
+    · omega
+    · omega
+    · exact absurd (Fin.ext (by omega)) hne
+
+theorem exampleNode_mem : Node.Mem 8 exampleNode :=
+  ⟨1, rfl⟩
+
+end Example
+
 end Cirkit
